@@ -5,7 +5,7 @@ YAML data: wrappers dropped, enum notations mapped to their YAML shape) and a li
 reference READER `readDoc : List Char → Option PVal` for the dialect the emitter produces:
 
 * lines are split at LF (CR and CRLF are line breaks too); every line = indentation + text
-* block sequences (`- `), block mappings with implicit keys (`key: value`, `key:`), complex keys
+* block sequences (`- `), block mappings with implicit keys (`key: value`, `key:`; at most 1024 characters up to the `:`), complex keys
   (`? key` / `: value`), compact nesting after `- `, `? `, `: `; a sequence that is the value of a key
   may start at the key's own indentation
 * flow sequences / mappings on one line, plain / single-quoted / double-quoted scalars, multi-line plain
@@ -516,6 +516,11 @@ def implicitKey (t : List Char) : Option (PVal × List Char) :=
       if c == '[' || c == '{' || c == '|' || c == '>' || c == '#' || c == '&' || c == '*' || c == '%' || c == '@' || c == '`' then none
       else (splitPlainKey [] t').map fun (k, after) => (resolvePlain (trimEndSpaces k), after)
 
+/-- the longest implicit key `key:` (YAML: the `:` must follow within 1024 characters of the start of the key, on
+the same line; the blanks before the `:` count).  Longer keys need the explicit form `? key`; inside flow
+collections there is no limit. -/
+def maxImplicitKey : Nat := 1024
+
 /-- the column at which `rest` starts when `after` = the text following a token that ended at
 column `col`, with `rest = dropSpaces after` -/
 def restColumn (col : Nat) (after : List Char) : Nat := col + (after.takeWhile (· == ' ')).length
@@ -627,6 +632,8 @@ def blockMap : Nat → (col : Nat) → List Line → Option (List (PVal × PVal)
           | some (k, after) =>
             let item := dropSpaces after
             let keyLen := l.text.length - after.length
+            -- an implicit key is limited: its `:` must follow within 1024 characters of the start of the key
+            if keyLen > maxImplicitKey + 1 then none else
             let value :=
               if item.isEmpty || item.head? == some '#' then blockNode fuel (col + 1) (some col) false rest
               else blockNode fuel (col + 1) none true ({ indent := restColumn (col + keyLen) after, text := item } :: rest)
